@@ -85,6 +85,11 @@ c.finish(
         "over {Flate,LZW,A85,AHx,RL} of length 1-3 is decoded and closed, then 3 Flate + 3 LZW streams of independent "
         "Readers are open at once and read interleaved and must equal their sequential contents - an enumeration of "
         "chains, still a TEST with respect to schedules",
+        "per-call derived state (per-object decryption keys, object streams, xref streams, error-handling modes): 8 file "
+        "configurations (RC4-40, RC4-128, AESV2, AESV3, with/without cross-reference and object streams, unencrypted) are "
+        "read by 6 goroutines at once and every result is compared with the sequential one, in the plain and the -race "
+        "build (coverage.concurrent_reads) - a TEST over the Go scheduler's interleavings; RC4 /Length 48..120 needs the "
+        "proposed hook VerifC18RekeyRC4",
         "error values as package-level state: a deterministic oracle (coverage.errors) runs a catalogue of 18 failing calls "
         "on Reader A alone, on Reader B alone and interleaved and compares err.Error() text, IsMalformed / errors.Is, the "
         "dynamic type chain and MalformedFileError.Loc with the run-alone result; the same calls run concurrently from "
